@@ -6,7 +6,7 @@
    (1-c)/2 capped at 1/2, r1 = 2 mu - l1 and
    band l r = Phi(r - 1/2) - Phi(l - 1/2) for the CDF Phi of the approximating normal. *)
 From MM Require Import Base.Num Base.GFSum Model.Choose Model.Binom Model.QuantileCI Check.C06 Check.C11
-                       Proofs.Binom Proofs.QuantileCI Proofs.QuantileCISet Proofs.QuantileCIScale Proofs.QuantileCILaws Proofs.QuantileCIExact Proofs.QuantileCISetScale.
+                       Proofs.Binom Proofs.QuantileCI Proofs.QuantileCISet Proofs.QuantileCIScale Proofs.QuantileCILaws Proofs.QuantileCIExact Proofs.QuantileCISetScale Proofs.QuantileCIGraph.
 From Coq Require Import Sorted Permutation.
 Local Open Scope Q_scope.
 
@@ -277,6 +277,17 @@ Theorem C11_comparator_set_is_rational_set : forall (n : nat) (q : Q), 0 <= q <=
   end.
 Proof. exact comparator_outs_are_rational_set. Qed.
 Print Assumptions C11_comparator_set_is_rational_set.
+
+(* The transition graph the comparator builds always exists within its fuel n+3 (masses >= 0 with support
+   [0,n]; window off or 1/ieps > 1; start candidates inside [0,n]): the hypothesis [qci_graph ... = Some g]
+   of the theorems above holds for every input of the comparator, which therefore never stops for want
+   of fuel. *)
+Theorem C11_comparator_graph_exists : forall (n : nat) (q : Q) (exact : bool), 0 <= q <= 1 ->
+  let N := Z.of_nat n in
+  let Pw := scaled_pmf N (binom_weights N (Qnum q) (Zpos (Qden q) - Qnum q)) in
+  exists g, qci_graph Pw (if exact then 0 else ieps_border) N (mode_candidates N q exact) = Some g.
+Proof. exact comparator_graph_exists. Qed.
+Print Assumptions C11_comparator_graph_exists.
 
 (* ---------- non-vacuity ---------- *)
 Example C11_small_example :
